@@ -88,6 +88,9 @@ svalue_t *apply (const char *fun, object_t *ob, int n, int origin)
 {
   int k = callbacks++;
   (void) fun; (void) ob; (void) n; (void) origin;
+#ifdef MODE_DESTRUCT
+  if (k == 0)      /* (the later callbacks of the destruct cascade are not re-checked: cost) */
+#endif
   VERIF_ASSERT ("C08.move.callbacks_see_a_consistent_forest", forest_inv ());
 #ifndef NHAVOC
 #define NHAVOC 2
